@@ -104,3 +104,42 @@ Proof.
   intros H HX H1 H2 H3. apply (RoundTrip.rplus_rminus _ (SO3_core eps H)); [exact HX|apply (so3_exp_valid_generic eps H x y z H1)|].
   apply (so3_log_exp_generic eps H x y z H1 H2 H3).
 Qed.
+
+(* SE3, SE_2(3), SGal(3): both round trips, right and left, for every valid X (RoundTrip_Fam: C01 core + validity of exp + C03) *)
+From Manif Require Import SE3 SE23 SGal3 SE23Proofs RoundTrip_Fam.
+Theorem C04_SE3_plus_minus eps (Heps : 0 < eps) x y z
+  (Hgt : eps < x * x + y * y + z * z) (Hpi : sqrt (x * x + y * y + z * z) < PI)
+  (Hsin : eps < sin (sqrt (x * x + y * y + z * z) / 2) * sin (sqrt (x * x + y * y + z * z) / 2)) X a b c : se3_valid X ->
+  fst (fst (rminus (SE3 RS eps) (fst (fst (rplus (SE3 RS eps) X [a; b; c; x; y; z] false false))) X false false)) = [a; b; c; x; y; z] /\
+  fst (fst (lminus (SE3 RS eps) (fst (fst (lplus (SE3 RS eps) X [a; b; c; x; y; z] false false))) X false false)) = [a; b; c; x; y; z].
+Proof. exact (se3_plus_minus eps Heps x y z Hgt Hpi Hsin X a b c). Qed.
+Theorem C04_SE23_plus_minus eps (Heps : 0 < eps) x y z
+  (Hgt : eps < x * x + y * y + z * z) (Hpi : sqrt (x * x + y * y + z * z) < PI)
+  (Hsin : eps < sin (sqrt (x * x + y * y + z * z) / 2) * sin (sqrt (x * x + y * y + z * z) / 2)) X a b c d e f : se23_valid X ->
+  fst (fst (rminus (SE23 RS eps) (fst (fst (rplus (SE23 RS eps) X [a; b; c; x; y; z; d; e; f] false false))) X false false)) = [a; b; c; x; y; z; d; e; f] /\
+  fst (fst (lminus (SE23 RS eps) (fst (fst (lplus (SE23 RS eps) X [a; b; c; x; y; z; d; e; f] false false))) X false false)) = [a; b; c; x; y; z; d; e; f].
+Proof. exact (se23_plus_minus eps Heps x y z Hgt Hpi Hsin X a b c d e f). Qed.
+Theorem C04_SGal3_plus_minus eps (Heps : 0 < eps) x y z
+  (Hgt : eps < x * x + y * y + z * z) (Hpi : sqrt (x * x + y * y + z * z) < PI)
+  (Hsin : eps < sin (sqrt (x * x + y * y + z * z) / 2) * sin (sqrt (x * x + y * y + z * z) / 2)) X a b c d e f tau : sg_valid X ->
+  fst (fst (rminus (SGal3 RS eps) (fst (fst (rplus (SGal3 RS eps) X [a; b; c; d; e; f; x; y; z; tau] false false))) X false false)) = [a; b; c; d; e; f; x; y; z; tau] /\
+  fst (fst (lminus (SGal3 RS eps) (fst (fst (lplus (SGal3 RS eps) X [a; b; c; d; e; f; x; y; z; tau] false false))) X false false)) = [a; b; c; d; e; f; x; y; z; tau].
+Proof. exact (sg_plus_minus eps Heps x y z Hgt Hpi Hsin X a b c d e f tau). Qed.
+Theorem C04_SE3_minus_plus eps (Heps : 0 < eps) X Y tx ty tz x y z w : se3_valid X -> se3_valid Y ->
+  g_compose (SE3 RS eps) (g_inverse (SE3 RS eps) X) Y = [tx; ty; tz; x; y; z; w] -> 0 < w -> eps < x * x + y * y + z * z ->
+  fst (fst (rplus (SE3 RS eps) X (fst (fst (rminus (SE3 RS eps) Y X false false))) false false)) = Y.
+Proof. exact (se3_minus_plus eps Heps X Y tx ty tz x y z w). Qed.
+Theorem C04_SE3_lminus_lplus eps (Heps : 0 < eps) X Y tx ty tz x y z w : se3_valid X -> se3_valid Y ->
+  g_compose (SE3 RS eps) Y (g_inverse (SE3 RS eps) X) = [tx; ty; tz; x; y; z; w] -> 0 < w -> eps < x * x + y * y + z * z ->
+  fst (fst (lplus (SE3 RS eps) X (fst (fst (lminus (SE3 RS eps) Y X false false))) false false)) = Y.
+Proof. exact (se3_lminus_lplus eps Heps X Y tx ty tz x y z w). Qed.
+Theorem C04_SE23_minus_plus eps (Heps : 0 < eps) X Y tx ty tz x y z w vx vy vz : se23_valid X -> se23_valid Y ->
+  g_compose (SE23 RS eps) (g_inverse (SE23 RS eps) X) Y = [tx; ty; tz; x; y; z; w; vx; vy; vz] -> 0 < w -> eps < x * x + y * y + z * z ->
+  fst (fst (rplus (SE23 RS eps) X (fst (fst (rminus (SE23 RS eps) Y X false false))) false false)) = Y.
+Proof. exact (se23_minus_plus eps Heps X Y tx ty tz x y z w vx vy vz). Qed.
+Theorem C04_SGal3_minus_plus eps (Heps : 0 < eps) X Y px py pz x y z w vx vy vz t : sg_valid X -> sg_valid Y ->
+  g_compose (SGal3 RS eps) (g_inverse (SGal3 RS eps) X) Y = [px; py; pz; x; y; z; w; vx; vy; vz; t] -> 0 < w -> eps < x * x + y * y + z * z ->
+  fst (fst (rplus (SGal3 RS eps) X (fst (fst (rminus (SGal3 RS eps) Y X false false))) false false)) = Y.
+Proof. exact (sg_minus_plus eps Heps X Y px py pz x y z w vx vy vz t). Qed.
+Print Assumptions C04_SGal3_plus_minus.
+Print Assumptions C04_SE3_minus_plus.
